@@ -29,7 +29,7 @@ class Cfg:
         self.lattices = False
         self.sugar = True            # disjunctions, patterns
         self.opt_cols = 0.1          # probability that a column is Option<i32>
-        self.avoid_f9 = True         # see DESIGN / known findings F9
+        self.avoid_f9 = False        # F9 is fixed: the second clause may join on variables bound by conditions attached to the first
         self.p_leading_binder = 0.15 # let / for before the first clause
         self.__dict__.update(kw)
 
